@@ -239,6 +239,9 @@ type Env struct {
 	// NoWSize suppresses the Size() probes after writer operations (they are not atomic
 	// with the operation, so under concurrency they would describe another instant).
 	NoWSize bool
+	// PartlyRead: the reader handed to PushBlob is a seekable in-memory reader of which a prefix (some
+	// header the caller looked at) has already been consumed; the blob is what is left to read.
+	PartlyRead bool
 	// PeekID makes composite uploads ask the writer for its ID at every point where the
 	// contract makes it valid (before the first Write, after Close), not only when resuming.
 	PeekID bool
@@ -429,7 +432,13 @@ func (e *Env) Exec(op *Op) *Outcome {
 			pd.ArtifactType = "application/vnd.example.thing"
 			pd.Platform = &ocispec.Platform{OS: "plan9", Architecture: "riscv64"}
 		}
-		d, err := r.PushBlob(ctx, op.Repo, pd, bytes.NewReader(buf))
+		var src io.Reader = bytes.NewReader(buf)
+		if e.PartlyRead {
+			whole := bytes.NewReader(append([]byte("HEADER THE CALLER ALREADY READ;"), buf...))
+			io.CopyN(io.Discard, whole, int64(whole.Len()-len(buf)))
+			src = whole
+		}
+		d, err := r.PushBlob(ctx, op.Repo, pd, src)
 		e.scribble(buf)
 		if op.DescExtra {
 			// the descriptor value is the caller's
